@@ -11,7 +11,7 @@
    fsync_ignored_errnos = "descriptor cannot be synced").
    Environment assumption made explicit in [status_of]: an exception that leaves
    main or a thread, or a destructor, ends the process by abort() (SIGABRT). *)
-From PP Require Import Sys.ExitDefs Sys.ExitProofs Sys.ThreadedIODefs Sys.ThreadedIOProofs.
+From PP Require Import Sys.ExitDefs Sys.ExitProofs Sys.ThreadedIODefs Sys.ThreadedIOProofs Sys.WrapperIODefs Sys.WrapperIOProofs.
 Local Open Scope Z_scope.
 
 (* Any util-stream filter tool (any transducer [step]/[fin], any read size), any oracle:
@@ -57,6 +57,23 @@ Theorem C11_shard_output_error_nonzero_exit0_all_accepted :
   (st = Exited 0 -> any_failed evs = false /\ accepted fd evs = file_content lines).
 Proof. exact threaded_file_spec_proof. Qed.
 Print Assumptions C11_shard_output_error_nonzero_exit0_all_accepted.
+
+(* The data paths of cache / foldfilter / b64filter (feeder thread: FileStream on the child's stdin;
+   collector thread: FileStream on fd 1), each thread with its own arbitrary oracle: no fuel error; a failed
+   write/fsync/close in EITHER thread => SIGABRT; exit 0 => the child's stdin accepted every byte fed to it,
+   stdout accepted every byte of every output record, the child ended normally with code 0 and delivered
+   exactly the lines the records needed (b64filter: not one more). *)
+Theorem C11_wrapper_io_error_nonzero_exit0_all_accepted :
+  forall wr fd_child sent records needs child_lines t orc_f orc_c st evf evc,
+  wrapper_io_run wr fd_child sent records needs child_lines t orc_f orc_c = (st, evf, evc) ->
+  st <> StFuel /\
+  (any_failed evf = true \/ any_failed evc = true -> st = Signaled SIGABRT) /\
+  (st = Exited 0 ->
+     any_failed evf = false /\ any_failed evc = false /\
+     accepted fd_child evf = concat sent /\ accepted 1 evc = concat records /\
+     Wait (wstatus t) mod 256 = 0 /\ exists rest, collect needs child_lines = Some rest /\ (wr = B64filter -> rest = 0%nat)).
+Proof. exact wrapper_io_spec_proof. Qed.
+Print Assumptions C11_wrapper_io_error_nonzero_exit0_all_accepted.
 
 (* iostream tools, for ANY segmentation of the output into write(2) calls by stdio:
    with the stream-state tests that the four mains contain today (regenerated booleans). *)
@@ -149,6 +166,12 @@ Example C11_nonvacuous_shard_output :
   threaded_file_run 3 [[97]; [98; 99]; []] [Ok 6 []; Err EIO]
   = (Signaled SIGABRT, [mkEv OpWrite 3 6 [97; 10; 98; 99; 10; 10] (Ok 6 []); mkEv OpFsync 3 0 [] (Err EIO)]).
 Proof. vm_compute. reflexivity. Qed.
+
+(* foldfilter: everything fine except the close of the child's stdin => abort; cache with clean oracles and exit 0 => 0 *)
+Example C11_nonvacuous_wrapper_io :
+  fst (fst (wrapper_io_run Foldfilter 4 [[97; 10]; [98; 10]] [[97; 98; 10]] [2%nat] 2 (TExit 0) [Ok 4 []; Ok 0 []; Ok 0 []; Err EIO] [])) = Signaled SIGABRT /\
+  fst (fst (wrapper_io_run Cache 4 [[97; 10]] [[97; 10]; [97; 10]] [1%nat] 1 (TExit 0) [] [])) = Exited 0.
+Proof. vm_compute. split; reflexivity. Qed.
 
 (* the unchecked iostream main of the original code exits 0 on a failed write (the defect that was fixed) *)
 Example C11_nonvacuous_iostream_unchecked_exits_0 :
